@@ -149,6 +149,7 @@ func (o XferOpt) String() string {
 
 // Xfer is a running transfer scenario.
 type Xfer struct {
+	CloseAt  time.Duration // instant of the first scripted Close (ScriptCloses)
 	R        *Run
 	S        *Sim
 	W        *World
@@ -291,12 +292,15 @@ func (x *Xfer) Census() {
 func (x *Xfer) ScriptCloses() func() bool {
 	s := x.S
 	const cs = "close"
-	ctl := s.NewActor("closer")
 	n := 1 + s.Tape.Choose(cs, 4)
 	at := time.Duration(s.Tape.Skewed(cs, 0, 4000000)) * time.Microsecond
+	x.CloseAt = at
 	remaining := n
 	for i := 0; i < n; i++ {
 		what := s.Tape.Choose(cs, 5)
+		// an actor per Close: one of them may be held inside Close (close-yield)
+		// while the others run
+		ctl := s.NewActor(fmt.Sprintf("closer%d", i))
 		s.At(at+time.Duration(i)*time.Nanosecond, "close", func() {
 			var f func() error
 			name := ""
@@ -334,11 +338,6 @@ func (x *Xfer) ScriptCloses() func() bool {
 				}
 				name = "conn:" + c.addrStr
 				f = func() error { return c.Close() }
-			}
-			if ctl.Busy() {
-				// previous close still running (it cannot block for long); retry shortly
-				remaining--
-				return
 			}
 			s.L.Logf("call Close(%s)", name)
 			s.Stats.Fault("close-midway")
@@ -865,8 +864,11 @@ func scenXfer(r *Run) {
 		x.RunStall(&stallBegan, &stallUntil, &lossFrom, &lossTo)
 		return
 	}
-	if r.Spec.Stratum == "close" {
+	if r.Spec.Stratum == "close" || r.Spec.Stratum == "close-yield" {
 		closed := x.ScriptCloses()
+		if r.Spec.Stratum == "close-yield" {
+			x.HoldAtYield()
+		}
 		r.S.Run(func() bool { return closed() || x.Done() })
 		if r.S.Viol == nil {
 			// let blocked calls observe the close, then take the census
@@ -876,6 +878,73 @@ func scenXfer(r *Run) {
 		r.S.Run(x.Done)
 	}
 	x.Finish()
+}
+
+// closeYieldSites are the lock-free points of the library's goroutines (and of
+// Close itself) at which one goroutine is held while the scripted Closes happen.
+var closeYieldSites = []string{"close.afterdie", "post.tx", "update.entry", "readloop.got", "monitor.got", "read.block", "write.block"}
+
+// HoldAtYield (stratum close-yield, C15): shortly before the scripted Closes one
+// goroutine of the library - the read loop holding a datagram it has just
+// received, the post-processing goroutine about to transmit, a scheduled update
+// callback about to run, a Read/Write about to block, or Close itself right
+// after it marked the session dead - is parked at a yield point, the Closes
+// (sessions, listener, transports, in seeded order) take place while it is
+// held, and it is released a seeded time later. Every always-on oracle applies:
+// pool sanitizer (use after recycle, double recycle), leak census, stream
+// oracle; a process crash from here on is this property's violation.
+func (x *Xfer) HoldAtYield() {
+	s := x.S
+	t := s.Tape
+	const ys = "yield"
+	site := Pick(t, ys, closeYieldSites)
+	lead := time.Duration(t.Skewed(ys, 0, 30000)) * time.Microsecond
+	hold := time.Duration(1+t.Skewed(ys, 0, 60000)) * time.Microsecond
+	s.mu.Lock() // the library's goroutines are already consulting the yield control
+	s.Yield.Armed[site] = true
+	s.Yield.Active = map[string]bool{"read.wake": true, "write.wake": true, site: false}
+	s.mu.Unlock()
+	held := false
+	s.BeforeStep = func() {
+		// Once a session is closed, whether its goroutines still reach their yield
+		// points (last flush, last transmission) is the runtime's choice: the hold
+		// must begin BEFORE the first Close - except for Close's own site, which
+		// is reached by the scripted Close calls themselves.
+		now := s.Now()
+		on := !held && now+lead >= x.CloseAt && now < x.CloseAt
+		if site == "close.afterdie" {
+			on = !held && now >= x.CloseAt && !x.W.TearingDown
+		}
+		s.SetActive(site, on)
+	}
+	s.OnDrain = func() {
+		var group []*parkedG
+		for _, p := range s.TakeParked() {
+			p := p
+			if p.site == site {
+				group = append(group, p)
+				continue
+			}
+			s.Stats.Probe("serialised-wake-up")
+			s.At(s.Now(), "wake:"+p.who, func() { s.Release(p) })
+		}
+		if len(group) == 0 {
+			return
+		}
+		// goroutines that reached the site within one cascade are held and released
+		// together (which of them came first is the runtime's choice)
+		held = true
+		s.SetActive(site, false)
+		s.Stats.Fault("held-at:" + site)
+		s.L.Logf("%d goroutine(s) held at %s for %v (first Close at %v)", len(group), site, hold, x.CloseAt)
+		Mark("interleaving/crash-while-a-goroutine-is-held-across-close")
+		s.After(hold, "release:"+site, func() {
+			s.L.Logf("release %d goroutine(s) held at %s", len(group), site)
+			for _, p := range group {
+				s.Release(p)
+			}
+		})
+	}
 }
 
 func init() {
